@@ -180,10 +180,12 @@ def idsAt : Nat → List Op → Bool
   | i, _ :: ops => idsAt (i + 1) ops
 def wf (i : Input) : Bool := (ids i.ops).Nodup && idsAt 0 i.ops && decide (0 < i.cap)
 
-/-! ### Classification of failing instances (signatures of known findings)
+/-! ### Classification of failing instances
 
 Not part of the property: tells *which kind* of instance made one of the three
-bookkeeping clauses fail, so that a recorded finding can be matched narrowly.
+bookkeeping clauses fail. The first two kinds were the signatures of findings K10 and
+K09a; both are repaired in /repo (ea42028, e17258f) and no recorded finding matches
+them any more, so such a failure is a violation like any other.
 * `checkall-invalid` — tick without a peerset function, latest metric not valid
 * `counter-kept`     — an earlier alert for this (name, peer) was not followed by a
                        forgetting check, and the metric was renewed/removed since
